@@ -548,8 +548,21 @@ impl Axecutor {
         data: Vec<u8>,
         name: Option<String>,
     ) -> Result<(), AxError> {
+        let end = match start.checked_add(data.len() as u64) {
+            Some(end) => end,
+            None => {
+                return Err(AxError::from(format!(
+                    "cannot create memory area {} with start={:#x}, length={:#x}: end address overflows",
+                    name.unwrap_or_else(|| "<unnamed>".to_string()),
+                    start,
+                    data.len()
+                )))
+            }
+        };
+
         for area in &self.state.memory {
-            if start >= area.start && start < area.start + area.length {
+            // two half-open ranges share an address iff max(starts) < min(ends)
+            if start.max(area.start) < end.min(area.start + area.length) {
                 let overlap_name = area
                     .name
                     .to_owned()
